@@ -169,7 +169,7 @@ pub fn h_iter_plain_value(n: usize, kind: u8) {
         let e = UnhingedEntry::new(Key::new(i as u8, 8 + i as u8), 100 + i as u32);
         let entry = Entry::new(e, c.seal, c.seal.get().next);
         c.current_size += entry.size;
-        c.insert_untracked(entry);
+        raw_link(&mut c, entry);
         i += 1;
     }
     let (pat, steps) = sym_pattern(n);
@@ -236,7 +236,7 @@ harnesses! {
     forget_iter_n3 [7] => h_iter(3, 0, true, tab_of(6)); //@ q=C17 to=600
     forget_keys_n2 [6] => h_iter(2, 1, true, tab_of(6)); //@ t=C17 to=600
     forget_values_n2 [6] => h_iter(2, 2, true, tab_of(6)); //@ t=C17 to=600
-    forget_drain_n3 [7] => h_iter(3, 3, true, tab_of(6)); //@ q=C17 to=900
+    forget_drain_n3 [7] => h_iter(3, 3, true, tab_of(6)); //@ q=C17,C06 to=900
     forget_drain_n1 [5] => h_iter(1, 3, true, tab_of(6)); //@ q=C17 to=600
     forget_into_iter_n3 [7] => h_iter(3, 4, true, tab_of(6)); //@ q=C17 to=600
     forget_into_keys_n3 [7] => h_iter(3, 5, true, tab_of(6)); //@ q=C17 to=600
